@@ -25,7 +25,7 @@ Definition render_item (value : char -> list char) (i : item) : list char :=
   match i with
   | IChar c => [c]
   | IEsc l => match assoc l printf_escapes with Some c => [c] | None => [] end
-  | IOct a b c => [octal_val a * 64 + octal_val b * 8 + octal_val c]
+  | IOct a b c => oct_out a b c
   | IFlush => []
   | IDir d ds j => pad (width_ref ds) j (value d)
   end.
